@@ -26,7 +26,7 @@ META = {
         "thorough": "all inputs <=3 object leaves x <=3 species leaves x every ordered family-subset assignment over 2 families x 10 cost vectors; random inputs up to 5 object leaves / 4 species leaves / 5 families, 25% with a prescribed root order, 10% inconsistent leaf orders",
     },
     "assumptions": ["R-ORD joint DP is the judge (self-checked against explicit enumeration)", "cost vectors restricted to the coherent region as quantified (F-COHERENCE outside)"],
-    "timeout": {"quick": 900, "thorough": 7200},
+    "timeout": {"quick": 420, "thorough": 7200},
 }
 
 
